@@ -236,7 +236,7 @@ func ruleT6(r *Run) {
 				}
 				nSlice++
 				key := "slice body " + name
-				// optional leading AddReferenceCount(n) (rows of []byte)
+				// optional leading AddReferenceCount(n)
 				if len(stmts) == 2 {
 					if m, _, ok := recvCall(info, stmts[0], recv); ok && m == "AddReferenceCount" {
 						stmts = stmts[1:]
@@ -266,6 +266,18 @@ func ruleT6(r *Run) {
 					if as, ok := s.(*ast.AssignStmt); ok && len(as.Rhs) == 1 {
 						if call, ok := as.Rhs[0].(*ast.CallExpr); ok && len(call.Args) == 2 && isIndexOf(info, call.Args[1], params[0], iv) {
 							emits++
+							continue
+						}
+					}
+					// accounting only: if <cond> { enc.AddReferenceCount(..) }
+					if ifs, ok := s.(*ast.IfStmt); ok && ifs.Else == nil && ifs.Init == nil {
+						only := len(ifs.Body.List) > 0
+						for _, bs := range ifs.Body.List {
+							if m, _, ok := recvCall(info, bs, recv); !ok || m != "AddReferenceCount" {
+								only = false
+							}
+						}
+						if only {
 							continue
 						}
 					}
